@@ -8,6 +8,7 @@
 // Oracle: prefix -> exception, or the very same sketch (padding only); corruption -> exception or a usable sketch;
 // never a sanitizer report / signal / timeout; LeakSanitizer clean after the rejections.
 #include "vf/families.hpp"
+#include "vf/c11_preamble.hpp"
 #include <sys/mman.h>
 #include <sys/wait.h>
 #include <sys/resource.h>
@@ -34,21 +35,6 @@ struct Shared {
 
 struct Fault { int path; int kind; size_t pos; uint8_t val; };  // path 0 bytes, 1 stream, 2 wrap ; kind 0 prefix (pos = length), 1 corrupt (pos, val)
 const char* path_name(int p) { return p == 0 ? "bytes" : p == 1 ? "stream" : "wrap"; }
-
-size_t preamble_len(int f, const fam::Bytes& img) {
-  // the documented preamble: byte 0 holds its length in 4-byte ints (HLL, CPC, KLL, REQ, density) or 8-byte longs (all others);
-  // at least the first 8 bytes, at most 64, clipped to the image
-  if (img.empty()) return 0;
-  size_t unit;
-  switch (f) {
-    case fam::F_HLL: case fam::F_CPC: case fam::F_KLL_F: case fam::F_KLL_S: case fam::F_REQ_F: case fam::F_REQ_S: case fam::F_DENS: unit = 4; break;
-    default: unit = 8;
-  }
-  size_t p = static_cast<size_t>(img[0] & 0x3f) * unit;
-  if (f == fam::F_CM) p = 16;   // count-min: fixed 2-long preamble (byte 0 is the preamble-longs field of the short form)
-  p = std::max<size_t>(p, 8);
-  return std::min<size_t>(std::min<size_t>(p, 64), img.size());
-}
 
 std::string sig_from_report(const std::string& text) {
   std::string kind = "crash";
@@ -162,6 +148,7 @@ void prop(const Case& cs) {
       // VarOpt in warm-up mode (n <= k, preamble longs 3): a larger k leaves the image self-consistent, and a sketch of that k with
       // resize factor X1 allocates k+1 slots up front exactly as its constructor does
       if ((f == fam::F_VO_I || f == fam::F_VO_S) && p >= 4 && p <= 7 && (img[0] & 0x3f) == 3 && vf::ref_le32(m.data() + 4) > 65536) { ++excluded_large_config; continue; }
+      if (f == fam::F_BLOOM && img.size() <= 24 && p >= 16 && m.size() >= 20 && vf::ref_le32(m.data() + 16) > (1u << 20)) { ++excluded_large_config; continue; }  // empty image, huge bit-array length: valid huge empty filter
       if (f == fam::F_DENS && empty_image && m.size() >= 12 && vf::ref_le32(m.data() + 8) > 4096) { ++excluded_large_config; continue; }
       faults.push_back(Fault{path, 1, p, v});
     }
